@@ -17,6 +17,7 @@ pub mod c15;
 pub mod c16;
 pub mod c18;
 pub mod c19;
+pub mod c20;
 pub mod history;
 
 pub struct Ctx {
@@ -64,6 +65,7 @@ pub fn dispatch(prop: &str, tier: Tier, seed: u64, only: Option<usize>, args: &[
         "C16" => c16::run(&ctx),
         "C18" => c18::run(&ctx),
         "C19" => c19::run(&ctx),
+        "C20" => c20::run(&ctx),
         _ => {
             eprintln!("unknown property {prop}");
             2
